@@ -78,6 +78,9 @@ def run(tier):
     # success paths: every completed run of the corpus closes its pool
     trs = corpus.get(tier)
     corpus.validate_property(rep, "C20", corpus.completed(trs))
+    # scripted runs: donor shortage in the real loop (RuntimeError naming it, no worker left, no result)
+    from .. import drv_scripts
+    drv_scripts.validate(rep, "C20", tier)
     rep.cov["evaluations"] += len(ftraces) + 2 * len(memo)
     rep.cov["traces_validated_against_impl"] += len(acc) + len(acc2)
     rep.cov["distinct_nontrivial"] = len(points)
